@@ -7,7 +7,7 @@ dst = os.path.join("/verif/seeded", name)
 os.makedirs(dst, exist_ok=True)
 shutil.copy(os.path.join(src, "patch.diff"), dst)
 if os.path.isdir(os.path.join(src, "demo")):
-    shutil.copytree(os.path.join(src, "demo"), os.path.join(dst, "demo"), dirs_exist_ok=True, ignore=shutil.ignore_patterns("cff", "cff.bin", ".bin", "bin", "*.test"))
+    shutil.copytree(os.path.join(src, "demo"), os.path.join(dst, "demo"), dirs_exist_ok=True, ignore=shutil.ignore_patterns("cff", ".cff", "cff.bin", ".bin", "bin", "*.test"))
 meta = {}
 try:
     meta = json.load(open(os.path.join(src, "meta.json")))
